@@ -2,7 +2,10 @@ import json,sys
 r=json.load(open(sys.argv[1]))
 print(r['signature'],'|',r['message'])
 c=r['case']
+if 'case' in c:
+    print('mode',c['mode'],'nav_a',json.dumps(c['nav_a']),'nav_b',json.dumps(c['nav_b']))
+    c=c['case']
 print('type',c.get('ptype'))
 for o in c.get('ops',[]): print('  ',json.dumps(o))
 for k in c:
-    if k not in ('ops','usteps','ptype'): print(k, json.dumps(c[k])[:600])
+    if k not in ('ops','usteps','ptype','extra'): print(k, json.dumps(c[k])[:600])
